@@ -43,9 +43,14 @@ import (
 
 type c34Call struct {
 	Kind    int `json:"k"`     // 0 Join, 1 Leave, 2 Shutdown
-	Trigger int `json:"t"`     // 0 start barrier, 1 State()>=leaving seen, 2 >=left seen, 3 shutdown seen, 4 after call After returned
+	Trigger int `json:"t"`     // 0 start barrier, 1 State()>=leaving seen, 2 >=left seen, 3 shutdown seen, 4 after call After returned, 5 at the AtRelease-th release of a serf mutex
 	After   int `json:"after"` // trigger 4: index of an earlier call (mod own index)
 	DelayUs int `json:"delay"` // extra delay after the trigger, microseconds
+	// trigger 5: the call is released when, counted from the start of the
+	// program, the AtRelease-th Unlock/RUnlock of one of serf's mutexes has
+	// happened (whatever goroutine did it); that goroutine then lingers for
+	// 150us so that the released call overtakes it right there
+	AtRelease int `json:"at_release,omitempty"`
 	// Join only: ignoreOld argument, and the number of targets minus one
 	// (-1 = empty list, 0 = one target, 1 = two targets)
 	IgnoreOld bool `json:"ignore_old,omitempty"`
@@ -99,6 +104,19 @@ func genC34(t *rapid.T) c34Case {
 		}
 	}
 	c.Snap = rapid.IntRange(0, 3).Draw(t, "snap") == 0
+	// one program in four pins a call to a lock boundary of another: the first
+	// call starts at the barrier, the second is released at the K-th release
+	// of a serf mutex, and the others do not poll State() (that would move K)
+	if rapid.IntRange(0, 3).Draw(t, "at-release") == 0 {
+		c.Calls[0] = c34Call{Kind: rapid.SampledFrom([]int{1, 1, 1, 2}).Draw(t, "ar.first")}
+		c.Calls[1] = c34Call{Kind: rapid.SampledFrom([]int{2, 2, 1, 0}).Draw(t, "ar.second"), Trigger: 5, AtRelease: rapid.IntRange(1, 16).Draw(t, "ar.k")}
+		for i := 2; i < len(c.Calls); i++ {
+			switch c.Calls[i].Trigger {
+			case 1, 2, 3:
+				c.Calls[i].Trigger, c.Calls[i].AtRelease = 5, rapid.IntRange(1, 24).Draw(t, "ar.k2")
+			}
+		}
+	}
 	return c
 }
 
@@ -202,6 +220,18 @@ func bodyC34(c c34Case, x *vkit.Ctx) {
 		done[i] = make(chan struct{})
 	}
 	giveUp := make(chan struct{}) // closed when waiting calls should stop waiting for their trigger
+	// trigger 5: channels closed by the lock hook at the K-th release
+	atRel := map[int64][]chan struct{}{}
+	atCh := make([]chan struct{}, len(c.Calls))
+	hasAt := false
+	for i, call := range c.Calls {
+		if call.Trigger == 5 && lockHookAvailable {
+			hasAt = true
+			atCh[i] = make(chan struct{})
+			k := int64(min(max(call.AtRelease, 1), 64))
+			atRel[k] = append(atRel[k], atCh[i])
+		}
+	}
 	start := make(chan struct{})
 	stopSampler := make(chan struct{})
 	samplerDone := make(chan struct{})
@@ -212,6 +242,11 @@ func bodyC34(c c34Case, x *vkit.Ctx) {
 			case <-stopSampler:
 				return
 			default:
+			}
+			if hasAt {
+				// State() takes a mutex: polling would move the release count
+				time.Sleep(200 * time.Microsecond)
+				continue
 			}
 			observe()
 			runtime.Gosched()
@@ -258,6 +293,14 @@ func bodyC34(c c34Case, x *vkit.Ctx) {
 						return
 					}
 				}
+			case 5:
+				if atCh[i] != nil { // without the locks overlay: like the start barrier
+					select {
+					case <-atCh[i]:
+					case <-giveUp:
+						return
+					}
+				}
 			}
 			r.triggered.Store(true)
 			if d := min(max(call.DelayUs, 0), 20000); d > 0 {
@@ -284,6 +327,26 @@ func bodyC34(c c34Case, x *vkit.Ctx) {
 	}
 	mon := vkit.StartMonitor()
 	defer mon.Stop()
+	// two programs in three run with lingering after lock releases (helpers_test.go:
+	// lockYield); programs with an at-release call count the releases instead
+	if hasAt {
+		var releases atomic.Int64
+		setLockHook(func(op string) {
+			if op != "unlock" && op != "runlock" {
+				return
+			}
+			if chs := atRel[releases.Add(1)]; chs != nil { // atRel is not written after this point
+				for _, ch := range chs {
+					close(ch)
+				}
+				linger(150 * time.Microsecond)
+			}
+		})
+		x.Label("at-release-trigger")
+	} else {
+		lockYield((len(c.Calls) + c.Peer) % 3)
+	}
+	defer setLockHook(nil)
 	close(start)
 	// calls whose trigger never comes true are released once nothing else is running
 	allDone := make(chan struct{})
